@@ -26,9 +26,11 @@ prop('C01',
      rule=('generated: struct shapes (1..7 fields per struct, value embedding to depth 4, pointer embedding, nested named structs, embedded non-struct named types, exported/unexported names colliding across depths, hseq tags with keys / empty keys / options / keys colliding with other field names) '
            'and for every focusable field (reached without crossing a pointer) a derivation by name and by type through ForProduct1/ForSpectrum1, plus N-ary derivations ForProductN/ForSpectrumN for drawn N in 2..9 by names in drawn order (same-typed fields preferred so a positional slip passes the type guard) and by types; '
            'each returned optic is exercised with drawn field contents and drawn values inside a canary-guarded arena whose EVERY leaf is filled: oracle = Get equals the bytes at the compiler-computed address; after Put the byte image of the arena (struct, padding, both canary zones, pointees) equals the old image with exactly the focus replaced by the new value; returned pointer identical; GetPut, PutGet, PutPut on images; same through Gett/Putt; '
-           ' Second tier (E2): struct shapes that exist only at run time (reflect.StructOf: 1..6 fields per struct, value/pointer embedding to depth 4, unexported names, tags) unfolded by the real unfold through the verif-tagged hook hseq.VerifUnfold and focused with optics.NewLens/NewReflector[Blob, A] for A over a static universe of 47 types; oracle: reflect\'s own addressing (FieldByIndex) for listing offsets and field memory, every OTHER focus type of the universe must be refused for the focused field, byte image of a canary-guarded arena for Put. fixed cases add instantiations of a generic container (ut.Box[int8] / ut.Box[string] unfolded alternately, ut.Wrap[int64] embedding ut.Box[int64]; another instantiation requested as focus must be refused); non-trivial = shape with >= 3 listed entries and a focus that is not the first entry or lies inside an embedded struct; distinct = different (shape, request)'),
+           ' Second tier (E2): struct shapes that exist only at run time (reflect.StructOf: 1..6 fields per struct, value/pointer embedding to depth 4, unexported names, tags) unfolded by the real unfold through the verif-tagged hook hseq.VerifUnfold and focused with optics.NewLens/NewReflector[Blob, A] for A over a static universe of 47 types; oracle: reflect\'s own addressing (FieldByIndex) for listing offsets and field memory, every OTHER focus type of the universe must be refused for the focused field, byte image of a canary-guarded arena for Put. fixed cases add instantiations of a generic container (ut.Box[int8] / ut.Box[string] unfolded alternately, ut.Wrap[int64] embedding ut.Box[int64]; another instantiation requested as focus must be refused); a separate part (race detector on) derives listings, lenses and reflectors of plain, namesake and generic containers from 2..8 goroutines at once and uses them; non-trivial = shape with >= 3 listed entries and a focus that is not the first entry or lies inside an embedded struct; distinct = different (shape, request)'),
      assumptions=E1_ASSUME,
      parts=[
+         dict(name='parallel', engine='E1', pkg='optpar', test='TestPar', race=True, replay_test='TestReplayPar', env=dict(GORACE='halt_on_error=1'),
+              quick=dict(cases=150, shards=1), thorough=dict(cases=4000, shards=4, timeout=3000)),
          dict(name='shapes', engine='E1', kind='gen', gen='lens', pkg='gen', test='TestShapes',
               quick=dict(shapes=12, pkgs=4, draws=25), thorough=dict(shapes=30, pkgs=24, draws=100, timeout=3000)),
          dict(name='dyn', engine='E2', pkg='optdyn', test='TestDyn',
@@ -66,9 +68,11 @@ prop('C03',
      rule=('generated on the same shapes: hseq.New[T]() compared entry by entry with the flattened listing computed from the spec (declaration order, embedded struct by value or by pointer listed and followed by its fields depth-first): Name, Type, PureType, ID = position, key = tag or name, '
            'and for every entry not behind a pointer RootOffs+Offset = address difference computed by the compiler through plain selectors; ForName/ForNameMaybe/New(name) for every key, for absent keys, for the empty key and for field names hidden by a tag; ForType for every type present, for absent and near-miss types; '
            'New(names...) in reversed order with a repeat and with an unknown name; New1..New9 by N-tuples of types (cyclic, both orders) and FMap1..FMap9 with recording functions (the i-th function sees the i-th entry exactly once), FMap over the whole listing; '
-           ' Second tier (E2): struct shapes that exist only at run time (reflect.StructOf: 1..6 fields per struct, value/pointer embedding to depth 4, unexported names, tags) unfolded by the real unfold through the verif-tagged hook hseq.VerifUnfold and focused with optics.NewLens/NewReflector[Blob, A] for A over a static universe of 47 types; oracle: reflect\'s own addressing (FieldByIndex) for listing offsets and field memory, every OTHER focus type of the universe must be refused for the focused field, byte image of a canary-guarded arena for Put. the first result of hseq.New is reordered and overwritten by its owner and hseq.New is asked again (results are independent values); field types include twins whose reflect.Type.String() is equal although the types differ (ForType must tell them apart); struct types are reused inside a shape (embedded here, nested there) and a sixth of the shapes contain a diamond (one struct type pointer- or value-embedded in two branches); fixed cases add instantiations of a generic container (ut.Box[int8] / ut.Box[string] unfolded alternately, ut.Wrap[int64] embedding ut.Box[int64]; another instantiation requested as focus must be refused); non-trivial = shape with >= 5 entries and at least one embedding; distinct = different shape'),
+           ' Second tier (E2): struct shapes that exist only at run time (reflect.StructOf: 1..6 fields per struct, value/pointer embedding to depth 4, unexported names, tags) unfolded by the real unfold through the verif-tagged hook hseq.VerifUnfold and focused with optics.NewLens/NewReflector[Blob, A] for A over a static universe of 47 types; oracle: reflect\'s own addressing (FieldByIndex) for listing offsets and field memory, every OTHER focus type of the universe must be refused for the focused field, byte image of a canary-guarded arena for Put. the first result of hseq.New is reordered and overwritten by its owner and hseq.New is asked again (results are independent values); field types include twins whose reflect.Type.String() is equal although the types differ (ForType must tell them apart); struct types are reused inside a shape (embedded here, nested there) and a sixth of the shapes contain a diamond (one struct type pointer- or value-embedded in two branches); fixed cases add instantiations of a generic container (ut.Box[int8] / ut.Box[string] unfolded alternately, ut.Wrap[int64] embedding ut.Box[int64]; another instantiation requested as focus must be refused); a separate part (race detector on) derives listings, lenses and reflectors of plain, namesake and generic containers from 2..8 goroutines at once and uses them; non-trivial = shape with >= 5 entries and at least one embedding; distinct = different shape'),
      assumptions=E1_ASSUME,
      parts=[
+         dict(name='parallel', engine='E1', pkg='optpar', test='TestPar', race=True, replay_test='TestReplayPar', env=dict(GORACE='halt_on_error=1'),
+              quick=dict(cases=150, shards=1), thorough=dict(cases=4000, shards=4, timeout=3000)),
          dict(name='shapes', engine='E1', kind='gen', gen='lens', pkg='gen', test='TestShapes',
               quick=dict(shapes=12, pkgs=4, draws=2), thorough=dict(shapes=30, pkgs=24, draws=2, timeout=3000)),
          dict(name='dyn', engine='E2', pkg='optdyn', test='TestDyn',
@@ -138,7 +142,7 @@ prop('C06',
            'for every stage, mode and capacity {0,1,3}; oracle: no process death (journal), delivered prefix of the uncancelled result at every receive (Fold/ForEach/Void: nothing or the full result), '
            'uncancelled runs: every port closes under a fair consumer and no stage goroutine remains (goroutine census of the bubble; Throttling may keep one pacer); after cancel + close of all inputs with NO further receive: '
            'census empty after a virtual horizon, then every port drains to "closed"; bubble exit without deadlock; '
-           '(leak verdicts come from the bubble itself: it cannot end while a goroutine of the stage is blocked; the census is taken for Throttling and to describe a leak); enumerated scenarios are repeated to sample select tie-breaks; stages are also created on an already cancelled context, and a sixth of the scenarios run an independent never-cancelled second instance alongside which must complete as if alone; a quarter of the Filter/TakeWhile/Partition scenarios use Lift/Try predicates that return errors (liveness, leak and nothing-invented clauses only); non-trivial = cancel while a producer is blocked / buffer full, or cancel inside a batch; distinct = different canonical scenario'),
+           '(leak verdicts come from the bubble itself: it cannot end while a goroutine of the stage is blocked; the census is taken for Throttling and to describe a leak); enumerated scenarios are repeated to sample select tie-breaks; stages are also created on an already cancelled context, and a sixth of the scenarios run an independent never-cancelled second instance alongside which must complete as if alone; a quarter of the Filter/TakeWhile/Partition scenarios use Lift/Try predicates that return errors (liveness, leak and nothing-invented clauses only); a quarter of the scenarios end by a deadline-style context (Err() == DeadlineExceeded); scripts of the untimed stages contain waits of 2 s / 90 s / 4000 s of virtual time; non-trivial = cancel while a producer is blocked / buffer full, or cancel inside a batch; distinct = different canonical scenario'),
      assumptions=E3_ASSUME + ['goroutines are attributed to the stage by frames in github.com/fogfish/golem/pipe/v2 within the current bubble'],
      parts=[
          dict(name='cancel-enum', engine='E3', pkg='pipes', test='TestC06Cancel', kind='plain',
@@ -182,7 +186,7 @@ prop('C08',
            'try-receive, drain-to-empty) ending by class: cancel by the harness, cancel with a backlog just sent, sends racing the cancel inside one batch, close of the send side with a backlog; '
            'oracle: FIFO model of the sends that completed: at every quiescent point every started send has returned (a send never waits for the receiver), received values are exactly 1,2,3,..., '
            'the receive side never closes before cancel/close, and after cancel or close-by-sender a full drain yields every completed send and then "closed"; process survives (journal), bubble ends (no leak); '
-           'besides the sequential sender, batches start 1..8 INDEPENDENT one-shot senders (several goroutines parked on a full send buffer while the cancel arrives; their values may arrive in any order, each at most once, every completed one delivered); in 25% of the scenarios a pipe of another element type (string) runs through a few values first in the same process; a fifth of the scenarios keep a second pipe of the same element type alive for the whole scenario (own context, five values, ended the other way), 5% create the pipe on a cancelled context; a separate part sends values of type any (nil interface, zero values, non-comparable payloads); all scripts of 5 (thorough: 7) moves over {send, recv, drain, burst 3, recv+send batch} are enumerated for capacities {0,1,2} and both ways of ending the stream; further end classes: close by the sender with a backlog and only then a cancel; up to four sends completing into the send buffer, close and cancel issued by one goroutine without yielding (repeated 6 times); non-trivial = backlog >= 2 at some quiescent point and (the stream ends with a backlog / racing sends, or the queue drained to empty and refilled at least twice); distinct = different canonical scenario'),
+           'besides the sequential sender, batches start 1..8 INDEPENDENT one-shot senders (several goroutines parked on a full send buffer while the cancel arrives; their values may arrive in any order, each at most once, every completed one delivered); in 25% of the scenarios a pipe of another element type (string) runs through a few values first in the same process; a fifth of the scenarios keep a second pipe of the same element type alive for the whole scenario (own context, five values, ended the other way), 5% create the pipe on a cancelled context; a separate part sends values of type any (nil interface, zero values, non-comparable payloads); all scripts of 5 (thorough: 7) moves over {send, recv, drain, burst 3, recv+send batch} are enumerated for capacities {0,1,2} and both ways of ending the stream; further end classes: close by the sender with a backlog and only then a cancel; up to four sends completing into the send buffer, close and cancel issued by one goroutine without yielding (repeated 6 times); a sixth of the scenarios (and every pre-cancelled one) also start sends after the cancel: each completes and is delivered, or ends by the closed-channel panic, none stays blocked; a quarter end by a deadline-style context; scripts contain long virtual waits; non-trivial = backlog >= 2 at some quiescent point and (the stream ends with a backlog / racing sends, or the queue drained to empty and refilled at least twice); distinct = different canonical scenario'),
      assumptions=E3_ASSUME + ['no send is started after a completed cancel (the library closes the send side on cancel by design); a send racing the cancel may complete, give up or hit the closed channel - only completed sends enter the model'],
      parts=[
          dict(name='any-elements', engine='E3', pkg='pipes', test='TestC08Any', replay_test='TestReplayAny',
@@ -206,7 +210,7 @@ prop('C09',
            'one call held until everything else is done and the input closed, cancel with calls in flight); second tier: the same scenario families free-running under -race with GOMAXPROCS in {1,2,4,16}; '
            'oracle: delivered multisets are sub-multisets of what the sequential stage delivers at every receive and equal at close (Try errors likewise), per-argument call count = multiplicity, in-flight calls <= workers at every quiescent point, '
            'no output observed closed while a call is in flight, closure/cancel/leak clauses as C06 (fair completion, census, bubble exit), no race report; '
-           'calls in flight stay gated across a cancel (an output observed closed while a call is in flight is a violation, cancelled or not); a constructed class makes every in-flight call return in the same batch with the output buffer partly filled and nobody receiving (repeated 6 times to sample the overlap); a sixth of the scenarios run an independent second instance alongside, stages are also created on an already cancelled context; a separate part streams elements of type any through fork.Map/Filter/Partition; the simultaneous-release class wakes all pending calls with one channel close (barrier move) with exactly one free output slot in half of its scenarios, 30 attempts; a separate differential part runs the thin delegations fork.Emit / Unfold / TakeWhile with fork.Pure / Lift / Try morphisms against the pipe stage with the pipe morphism of the same mode (values, errors preceding the n-th value, closure); a quarter of the fork.Filter / fork.Partition scenarios use Lift/Try predicates that return errors (closure, leak, call-count and nothing-invented clauses only); non-trivial = workers >= 2, input >= workers+1, and some release opened a gate other than the oldest; distinct = different canonical scenario'),
+           'calls in flight stay gated across a cancel (an output observed closed while a call is in flight is a violation, cancelled or not); a constructed class makes every in-flight call return in the same batch with the output buffer partly filled and nobody receiving (repeated 6 times to sample the overlap); a sixth of the scenarios run an independent second instance alongside, stages are also created on an already cancelled context; a separate part streams elements of type any through fork.Map/Filter/Partition; the simultaneous-release class wakes all pending calls with one channel close (barrier move) with exactly one free output slot in half of its scenarios, 30 attempts; a separate differential part runs the thin delegations fork.Emit / Unfold / TakeWhile with fork.Pure / Lift / Try morphisms against the pipe stage with the pipe morphism of the same mode (values, errors preceding the n-th value, closure); a quarter of the fork.Filter / fork.Partition scenarios use Lift/Try predicates that return errors (closure, leak, call-count and nothing-invented clauses only); a quarter of the scenarios end by a deadline-style context; scripts contain long virtual waits; non-trivial = workers >= 2, input >= workers+1, and some release opened a gate other than the oldest; distinct = different canonical scenario'),
      assumptions=E3_ASSUME + ['on cancel the harness opens all gates (a stage cannot terminate a user function that blocks forever)',
                               'Lift-mode fork stages are checked for closure, leaks and sub-multisets only (each worker stops at its own first failure)',
                               'in the free-running tier a hang is a 20 s timeout and reported as inconclusive; termination is decided by the bubble tier'],
@@ -232,7 +236,7 @@ prop('C10',
      rule=('generated: 1..6 workers x input length by class (empty, <= workers, up to 15) x 7 commutative monoids (sum/0, product/1 over distinct primes, max/MinInt, min/MaxInt, and/all-ones, bit-union/0, sum mod p) '
            'with element encodings that keep partial results distinguishable x capacity 0..3 x scripts with release moves gating every Combine call (so the distribution of elements over workers and the merge order are scripted) x optional cancel; '
            'plus the free-running -race tier; oracle: exactly one value, equal to pipe.Fold run on the same input with the same monoid and to a plain loop from Empty(), then closed; under cancel nothing or that value; '
-           'one in six scenarios uses 60..200 elements in a buffer of 64..len (pre-filled before the stage is created, workers ungated half of the time); a separate part folds with monoids whose carrier is a reference type and whose Combine merges into its left operand (histogram map, counter behind a pointer), compared with pipe.Fold; a sixth of the short scenarios run an independent second fold alongside (same input, own context); stages are also created on an already cancelled context; the free-running tier also lets the cancel race the end of the stream (go cancel(); send the last element; close - back to back after the workers parked); the reference-carrier part keeps the element objects of the caller (shared objects half of the time) and compares them after the fold; non-trivial = identity different from the zero value, or input >= workers >= 2; distinct = different canonical scenario'),
+           'one in six scenarios uses 60..200 elements in a buffer of 64..len (pre-filled before the stage is created, workers ungated half of the time); a separate part folds with monoids whose carrier is a reference type and whose Combine merges into its left operand (histogram map, counter behind a pointer), compared with pipe.Fold; a sixth of the short scenarios run an independent second fold alongside (same input, own context); stages are also created on an already cancelled context; the free-running tier also lets the cancel race the end of the stream (go cancel(); send the last element; close - back to back after the workers parked); the reference-carrier part keeps the element objects of the caller (shared objects half of the time) and compares them after the fold; a quarter of the scenarios end by a deadline-style context (Err() == DeadlineExceeded); non-trivial = identity different from the zero value, or input >= workers >= 2; distinct = different canonical scenario'),
      assumptions=E3_ASSUME + ['integer overflow wraps (still commutative and associative); product inputs are distinct primes with at most 15 elements'],
      parts=[
          dict(name='ref-carrier', engine='E4', pkg='pipes', test='TestC10Ref',
@@ -254,7 +258,7 @@ prop('C11',
            '(idle gap, reads) x optional cancel at a drawn virtual time; executed with goroutine actors on the virtual clock of a synctest bubble; oracle: received values are a prefix of the exact successive sequence, errors a prefix of the failing indices, '
            'Emit: consecutive calls of f at least one frequency apart, call i not before i ticks, value j not received before j ticks, f called with 0,1,2,...; an always-ready consumer without faults receives values exactly one frequency apart; '
            'the stage keeps producing until cancelled (bounded virtual wait); after cancel both channels close and the bubble ends; '
-           'in a third of the Emit scenarios the step function itself takes 0..3 quarters of a tick of virtual time; in half of the cancelled scenarios the consumer gives up at the cancel; a sixth of the scenarios run an independent second Emit/Unfold on the same virtual clock (always-ready consumer: exact sequence, values exactly one period apart); one scenario in sixteen creates the stage on an already cancelled context; non-trivial = >= 3 values received and (capacity < received or an idle gap of >= 2 ticks); distinct = different canonical scenario'),
+           'in a third of the Emit scenarios the step function itself takes 0..3 quarters of a tick of virtual time; in half of the cancelled scenarios the consumer gives up at the cancel; a sixth of the scenarios run an independent second Emit/Unfold on the same virtual clock (always-ready consumer: exact sequence, values exactly one period apart); one scenario in sixteen creates the stage on an already cancelled context; a quarter of the Emit/Try scenarios fail on every index from some point on and are cancelled inside that run; after a cancel the errors keep being read for the whole horizon and the channels must be closed at its end; a quarter of the scenarios end by a real deadline context instead of a cancel; non-trivial = >= 3 values received and (capacity < received or an idle gap of >= 2 ticks); distinct = different canonical scenario'),
      assumptions=E3_ASSUME + ['pacing is checked on the virtual clock, i.e. the logic of sleeping, not scheduler latency'],
      parts=[
          dict(name='rapid', engine='E3', pkg='pipes', test='TestC11',
@@ -271,7 +275,7 @@ prop('C13',
      rule=('generated: ops 1..5 x interval 1..4 units of {1ms, 1s, 7ns} x input capacity 0..3 x 0..30 elements x scenario class (saturated: input always available and consumer always ready; consumer stalls for 2..10 intervals then drains; '
            'input pauses for 2..10 intervals then bursts; random arrival and consumer patterns) x optional cancel at a drawn time; actors on a synctest virtual clock; oracle: delivered == input in order, closed at the end; for every delivery time t before the cancel the '
            'half-open window [t, t+interval) holds at most 2*ops+1+c deliveries; saturated class: element i delivered within [floor(i/ops)*interval, +interval]; completion within a generous virtual budget; '
-           'a sixth of the scenarios run an independent second Throttling of the same rate on the same virtual clock (saturated environment: exact per-element delivery window); one scenario in twenty creates the stage on an already cancelled context; non-trivial = at least 2*ops+1 elements and (an idle period of >= 2 intervals followed by a burst, or saturated with ops >= 2); distinct = different canonical scenario'),
+           'a sixth of the scenarios run an independent second Throttling of the same rate on the same virtual clock (saturated environment: exact per-element delivery window); one scenario in twenty creates the stage on an already cancelled context; a quarter of the scenarios end by a real context.WithDeadline on the virtual clock instead of a cancel (the context reports its deadline); non-trivial = at least 2*ops+1 elements and (an idle period of >= 2 intervals followed by a burst, or saturated with ops >= 2); distinct = different canonical scenario'),
      assumptions=E3_ASSUME + ['rate bound as stated by the property (2*ops+1+c per interval window), timestamps taken at the consumer'],
      parts=[
          dict(name='rapid', engine='E3', pkg='pipes', test='TestC13',
@@ -287,7 +291,7 @@ prop('C12',
      level='exploration',
      rule=('generated: k in {0,1,2,3,4,5,9,12} inputs of 0..6 tagged elements (input*1000+seq), capacities 0..3 each, scripts of up to 40+4k moves interleaving sends/bursts/closes on all inputs and receives; '
            'oracle at every receive: per-input subsequence of the delivered elements is a prefix of that input, no foreign element; if the output is observed closed: every input closed and fully delivered; completion: everything delivered then closed; '
-           'the slice of channels handed to Join is overwritten right after the call; one scenario in eight hands the same channel to Join twice (multiset oracle, no invented values); a fifth of the scenarios run an independent second Join alongside; a separate part joins streams of type any; all scripts of 6 (thorough: 8) moves over {send 0, send 1, close 0, close 1, recv} on two inputs are enumerated for three capacity pairs; one scenario in fifteen has 17..70 inputs (more than processors); with every element offered, the inputs open and a fair consumer everything must have come out already; non-trivial = k >= 2, two non-empty inputs, sends alternate between inputs; distinct = different canonical scenario'),
+           'the slice of channels handed to Join is overwritten right after the call; one scenario in eight hands the same channel to Join twice (multiset oracle, no invented values); a fifth of the scenarios run an independent second Join alongside; a separate part joins streams of type any; all scripts of 6 (thorough: 8) moves over {send 0, send 1, close 0, close 1, recv} on two inputs are enumerated for three capacity pairs; one scenario in fifteen has 17..70 inputs (more than processors); with every element offered, the inputs open and a fair consumer everything must have come out already; scripts contain waits of 2 s / 90 s / 4000 s of virtual time; non-trivial = k >= 2, two non-empty inputs, sends alternate between inputs; distinct = different canonical scenario'),
      assumptions=E3_ASSUME,
      parts=[
          dict(name='any-elements', engine='E3', pkg='pipes', test='TestC12Any', replay_test='TestReplayAny',
@@ -310,10 +314,12 @@ prop('C14',
            'sub-trees evaluated with a shift derived from the outer element and return nil on a drawn residue class; oracle: a list interpreter '
            '(evalS) compared with the slice collected by the documented loop, and with seq.ForEach under a callback failing at a drawn position '
            '(visited prefix and returned error); source slices compared with private copies afterwards; '
-           'a third of the slice leaves are windows buf[:n] of larger buffers whose hidden capacity holds sentinels that must survive; in a separate generated part two expressions over shared leaf buffers are drained alternately, step by step; the evaluations of predicates, mappings and join bodies are counted: none may happen after the ForEach callback returned its error; non-trivial = depth >= 3, expected length >= 1, >= 2 different combinators; distinct = different canonical tree+fail position'),
+           'a third of the slice leaves are windows buf[:n] of larger buffers whose hidden capacity holds sentinels that must survive; in a separate generated part two expressions over shared leaf buffers are drained alternately, step by step; the evaluations of predicates, mappings and join bodies are counted: none may happen after the ForEach callback returned its error; a separate part (race detector on) executes 2..8 independent scenarios in as many goroutines at once, each repeated 20-30 times: instances of their own share nothing; non-trivial = depth >= 3, expected length >= 1, >= 2 different combinators; distinct = different canonical tree+fail position'),
      assumptions=['element type int only; user functions are pure and total', 'an empty result may be a nil Seq or an iterator-less loop: compared by the collected slice'],
      parts=[
          dict(name='enum', engine='E5', pkg='iters', test='TestC14Enum', kind='plain', quick=dict(shards=4), thorough=dict(shards=8)),
+         dict(name='parallel', engine='E5', pkg='iters', test='TestC14Par', race=True, replay_test='TestReplayPar', env=dict(GORACE='halt_on_error=1'),
+              quick=dict(cases=150, shards=2), thorough=dict(cases=4000, shards=8, timeout=3000)),
          dict(name='rapid', engine='E5', pkg='iters', test='TestC14',
               quick=dict(cases=150000, shards=4), thorough=dict(cases=4500000, shards=16, timeout=2400)),
          dict(name='fuzz', engine='coverage-guided sweep', kind='fuzz', pkg='iters', test='FuzzC14',
@@ -333,10 +339,12 @@ prop('C15',
            'combinators through ToSeq/FromSeq; leaves carry keys in 1000..1020 and values in 0..20 so a swapped or stale key is visible; predicates, '
            'mappings and join bodies depend asymmetrically on (key, value) (e.g. k-2v mod m); oracle: list-of-pairs interpreter (evalP) vs the '
            '(Key(),Value()) pairs collected by the documented loop and by pair.ForEach with a failing callback; '
-           'in a separate generated part two expressions over shared leaves are drained alternately; the evaluations of predicates, mappings and join functions are counted: none may happen after the ForEach callback returned its error; non-trivial = depth >= 3, expected length >= 1, >= 2 different combinators; distinct = different canonical tree+fail position'),
+           'in a separate generated part two expressions over shared leaves are drained alternately; the evaluations of predicates, mappings and join functions are counted: none may happen after the ForEach callback returned its error; a separate part (race detector on) executes 2..8 independent scenarios in as many goroutines at once, each repeated 20-30 times: instances of their own share nothing; non-trivial = depth >= 3, expected length >= 1, >= 2 different combinators; distinct = different canonical tree+fail position'),
      assumptions=['key and value type int only; user functions are pure and total'],
      parts=[
          dict(name='enum', engine='E5', pkg='iters', test='TestC15Enum', kind='plain', quick=dict(shards=4), thorough=dict(shards=8)),
+         dict(name='parallel', engine='E5', pkg='iters', test='TestC15Par', race=True, replay_test='TestReplayPar', env=dict(GORACE='halt_on_error=1'),
+              quick=dict(cases=150, shards=2), thorough=dict(cases=4000, shards=8, timeout=3000)),
          dict(name='rapid', engine='E5', pkg='iters', test='TestC15',
               quick=dict(cases=150000, shards=4), thorough=dict(cases=4500000, shards=16, timeout=2400)),
          dict(name='fuzz', engine='coverage-guided sweep', kind='fuzz', pkg='iters', test='FuzzC15',
@@ -357,11 +365,13 @@ prop('C16',
            'explicit stack of open contexts gives the expected tree and its DFS callback trace (kind, depth, Type/TypeA/TypeB as literal strings, payload, Root, '
            'Deferred, child count); checked with a recording visitor (trace equality, bracket discipline, depth = parent+1) and with a visitor failing at EVERY callback '
            'index (exactly k+1 callbacks, Apply returns that very error); '
-           'a separate generated part builds two programs alternately, statement by statement, and applies both; the lifted value of a step comes from L1/L2 at its own type parameters, from a conversion of a value lifted at other type parameters, or is the zero value; every sequence node handed to a callback is re-visited through Ast.Apply at depth 0 and depth+3 and must report that stretch of the full visit shifted; non-trivial = one nested context closed by Unit and another still open, or nesting >= 2; distinct = different canonical program'),
+           'a separate generated part builds two programs alternately, statement by statement, and applies both; the lifted value of a step comes from L1/L2 at its own type parameters, from a conversion of a value lifted at other type parameters, or is the zero value; every sequence node handed to a callback is re-visited through Ast.Apply at depth 0 and depth+3 and must report that stretch of the full visit shifted; a separate part (race detector on) executes 2..8 independent scenarios in as many goroutines at once, each repeated 20-30 times: instances of their own share nothing; non-trivial = one nested context closed by Unit and another still open, or nesting >= 2; distinct = different canonical program'),
      assumptions=['each intermediate morphism is used once (the statement\'s proviso): the AST is shared by pointer between a morphism and its derivatives',
                   'payloads are ints; type universe is finite (16 types)'],
      parts=[
          dict(name='enum', engine='E5', pkg='ducts', test='TestC16Enum', kind='plain', quick=dict(shards=4), thorough=dict(shards=16, timeout=2400)),
+         dict(name='parallel', engine='E5', pkg='ducts', test='TestC16Par', race=True, replay_test='TestReplayPar', env=dict(GORACE='halt_on_error=1'),
+              quick=dict(cases=150, shards=2), thorough=dict(cases=4000, shards=8, timeout=3000)),
          dict(name='rapid', engine='E5', pkg='ducts', test='TestC16',
               quick=dict(cases=20000, shards=4), thorough=dict(cases=600000, shards=16, timeout=2400)),
          dict(name='fuzz', engine='coverage-guided sweep', kind='fuzz', pkg='ducts', test='FuzzC16',
@@ -382,7 +392,7 @@ prop('C17',
            'tables, monoid/semigroup constructors) x triples of ints (boundary-biased) / strings (pieces incl. empty, proper prefixes, '
            'multi-byte runes, invalid UTF-8) x projection and operation parameters; oracles: ==, cmp.Compare, strings.Compare, bytes.Compare, '
            'the base instance applied to projections with an argument-recording asymmetric base, the wrapped function itself; '
-           'monoid.From over an already lifted monoid (two levels) must take the new empty element; ContraMap over arbitrary base functions (difference-style comparators answering values outside LT/EQ/GT, non-reflexive relations) must return exactly the answer of the base; non-trivial = the first two arguments differ; distinct = different canonical scenario'),
+           'monoid.From over an already lifted monoid (two levels) must take the new empty element; ContraMap over arbitrary base functions (difference-style comparators answering values outside LT/EQ/GT, non-reflexive relations) must return exactly the answer of the base; a fifth of the string scenarios make the three strings views of ONE allocation (s, s[:k], s[i:]); non-trivial = the first two arguments differ; distinct = different canonical scenario'),
      assumptions=['the harness builds against /repo/pure of the working tree (replace directive), not the cached pure v0.10.1'],
      parts=[
          dict(name='grid', engine='E7', pkg='c17', test='TestC17Grid', kind='plain', quick=dict(shards=1), thorough=dict(shards=1)),
@@ -404,13 +414,15 @@ prop('C18',
            'under 3 drawn height seeds (virtual clock offset inside a synctest bubble, which is what seeds the node heights); oracle: Go map for every '
            'return value and for Get of the whole universe after EVERY step, plus the parsed String() form after every step (live keys strictly ascending '
            'under the scenario order and equal to the model key set, forward pointers only to strictly larger live keys); '
-           'string keys include percent characters (100%, %v, a%sb, %d%%); a third of the histories drive a second list alongside (own model) with interleaved operations; non-trivial = the history re-inserts or reads a removed key, overwrites a key, or inserts in descending order; distinct = different canonical scenario'),
+           'string keys include percent characters (100%, %v, a%sb, %d%%); a third of the histories drive a second list alongside (own model) with interleaved operations; a separate part (race detector on) executes 2..8 independent scenarios in as many goroutines at once, each repeated 20-30 times: instances of their own share nothing; non-trivial = the history re-inserts or reads a removed key, overwrites a key, or inserts in descending order; distinct = different canonical scenario'),
      assumptions=['internal/maplike is exercised as a staged copy of the working-tree sources under the import path github.com/fogfish/golem/maplike',
                   'node heights are made deterministic through the bubble clock only (no source change): skiplist.New seeds from time.Now()',
                   'string keys are non-empty and contain no blanks so that the printed form can be parsed unambiguously'],
      parts=[
          dict(name='enum', engine='E6', pkg='c18', test='TestC18Enum', kind='plain',
               quick=dict(shards=4), thorough=dict(shards=16, timeout=3000)),
+         dict(name='parallel', engine='E6', pkg='c18', test='TestC18Par', race=True, replay_test='TestReplayPar', env=dict(GORACE='halt_on_error=1'),
+              quick=dict(cases=150, shards=2), thorough=dict(cases=4000, shards=8, timeout=3000)),
          dict(name='rapid', engine='E6', pkg='c18', test='TestC18',
               quick=dict(cases=15000, shards=4), thorough=dict(cases=240000, shards=16, timeout=3000)),
      ],
@@ -428,12 +440,14 @@ prop('C19',
            'Head, Length, IsEmpty, Fold with (a*31+b) mod p from a non-neutral Empty) over a growing register file, register indices taken modulo the '
            'registers existing; executed in lock-step on list.Trait[int], slice.Trait[int] and a [][]int model; after EVERY step every register is '
            're-read through Head/Tail/IsEmpty on both implementations and compared with the model (persistence); '
-           '5% of the New operations use a window of a buffer with 1100..2500 spare elements, 5% more than 1024 elements; non-trivial = some Cons on a register of length >= 1 or Tail on a register of length >= 2 (so a register is re-read after being extended/cut); '
+           '5% of the New operations use a window of a buffer with 1100..2500 spare elements, 5% more than 1024 elements; a separate part (race detector on) executes 2..8 independent scenarios in as many goroutines at once, each repeated 20-30 times: instances of their own share nothing; non-trivial = some Cons on a register of length >= 1 or Tail on a register of length >= 2 (so a register is re-read after being extended/cut); '
            'distinct = different canonical script'),
      assumptions=['internal/seq is exercised as a staged copy of the working-tree sources under the import path github.com/fogfish/golem/seq',
                   'Head/Tail of an empty sequence are outside the statement and are not generated'],
      parts=[
          dict(name='enum', engine='E6', pkg='c19', test='TestC19Enum', kind='plain', quick=dict(shards=1), thorough=dict(shards=1, timeout=1800)),
+         dict(name='parallel', engine='E6', pkg='c19', test='TestC19Par', race=True, replay_test='TestReplayPar', env=dict(GORACE='halt_on_error=1'),
+              quick=dict(cases=150, shards=2), thorough=dict(cases=4000, shards=8, timeout=3000)),
          dict(name='rapid', engine='E6', pkg='c19', test='TestC19',
               quick=dict(cases=80000, shards=1), thorough=dict(cases=1600000, shards=16, timeout=1800)),
          dict(name='fuzz', engine='coverage-guided sweep', kind='fuzz', pkg='c19', test='FuzzC19',
@@ -452,12 +466,14 @@ prop('C20',
      rule=('generated: N in 2..20, a family of N functions (position-tagged trace appenders on strings, '
            'affine maps mod 1000003, arbitrary lookup tables on [0,7)), 1..3 arguments applied in turn to the one '
            'composed function; oracle: left-to-right fold of the same functions + per-function call counters; '
-           'two more families: functions over `any` returning the nil interface for some inputs, and a stage that re-enters the composed function while the outer call is in flight; a third of the scenarios call with the same argument twice in a row; a separate generated part builds two compositions and calls them alternately; a sixth family has one stage panic (error, string, int, struct or pointer value): the composition panics with the very same value, earlier stages applied once, later ones not at all; non-trivial = all N functions pairwise different; distinct = different canonical scenario'),
+           'two more families: functions over `any` returning the nil interface for some inputs, and a stage that re-enters the composed function while the outer call is in flight; a third of the scenarios call with the same argument twice in a row; a separate generated part builds two compositions and calls them alternately; a sixth family has one stage panic (error, string, int, struct or pointer value): the composition panics with the very same value, earlier stages applied once, later ones not at all; a separate part (race detector on) executes 2..8 independent scenarios in as many goroutines at once, each repeated 20-30 times: instances of their own share nothing; non-trivial = all N functions pairwise different; distinct = different canonical scenario'),
      assumptions=['internal/pipe is exercised as a staged copy of the working-tree source (package pure, imported as verif.stage/purepipe)',
                   'type parameters are instantiated at int and string only; the generic bodies are parametric in their types'],
      parts=[
          dict(name='each', engine='E7', pkg='c20', test='TestC20Each', kind='plain',
               quick=dict(shards=1), thorough=dict(shards=1)),
+         dict(name='parallel', engine='E7', pkg='c20', test='TestC20Par', race=True, replay_test='TestReplayPar', env=dict(GORACE='halt_on_error=1'),
+              quick=dict(cases=150, shards=2), thorough=dict(cases=4000, shards=8, timeout=3000)),
          dict(name='rapid', engine='E7', pkg='c20', test='TestC20',
               quick=dict(cases=80000, shards=1), thorough=dict(cases=4000000, shards=16, timeout=1800)),
          dict(name='fuzz', engine='coverage-guided sweep', kind='fuzz', pkg='c20', test='FuzzC20',
